@@ -13,6 +13,8 @@ THEOREMS = [
     "C08_machine_eq_array",
     "C08_map_machine_eq_prior",
     "C08_is_derivative",
+    "C08_unvisited_component_irrelevant",
+    "C08_scalar_offset_is_constant_array",
 ]
 CORR_OPS = ["linear_scoring:scores"]
 RULE = ("1-4 models (as machines / 3-D array / single 2-D array) x 1-4 test statistics (incl. zero-frame ones, single statistic not in a "
